@@ -293,9 +293,9 @@ def check(ctx):
     ab = ctx.fn("framing", "Frame.addByContext")
     A = FuncView(ctx, ab)
     for cname, adder in CONTEXT_ADDERS.items():
-        t = A.tests(lambda t, cname=cname: isinstance(t, ast.Compare) and src(t) == "context == %s" % cname)
+        t = A.ptests("context == %s" % cname)
         calls = A.call_nodes("self." + adder)
-        ctx.check(bool(t) and bool(calls) and A.dominated_by_edge(calls, t[0], "T"), "T6-native", ab,
+        ctx.check(bool(t) and bool(calls) and A.under(calls, t[0]), "T6-native", ab,
                   "addByContext: %s -> %s" % (cname, adder), "an action declared for context %s must land in that context's list" % cname)
     rets = [n for n in A.cfg.nodes if n.kind == "return"]
     ctx.check(any(isinstance(r.ast.value, ast.Constant) and r.ast.value.value is False for r in rets), "T6-native", ab,
